@@ -270,8 +270,9 @@ theorem readMetaLen_legacy (n : Nat) (tail : List Nat) (hn : n < 2 ^ 31) :
   have h1 : (le32 n ++ tail).take 4 = le32 n := by simp [le32]
   have h2 : (le32 n ++ tail).drop 4 = tail := by simp [le32]
   have h3 : ¬ (le32 n ++ tail).length < 4 := by simp [le32]
+  have h0 : ¬ (le32 n ++ tail).length = 0 := by simp [le32]
   unfold readMetaLen
-  simp only [h3, if_false, h1, h2, le32_ne_marker n hn, readI32_le32 n hn]
+  simp only [h0, h3, if_false, h1, h2, le32_ne_marker n hn, readI32_le32 n hn]
   by_cases h0 : n = 0
   · simp [h0]
   · have : ¬ ((n : Int) = 0) := by omega
@@ -285,8 +286,9 @@ theorem readMetaLen_marker (n : Nat) (tail : List Nat) (hn : n < 2 ^ 31) :
   have h2' : ¬ ((continuationMarker ++ le32 n ++ tail).drop 4).length < 4 := by simp [marker_eq, le32]
   have h2'' : (continuationMarker ++ le32 n ++ tail).drop 8 = tail := by simp [marker_eq, le32]
   have h3 : ¬ (continuationMarker ++ le32 n ++ tail).length < 4 := by simp [marker_eq, le32]
+  have h0 : ¬ (continuationMarker ++ le32 n ++ tail).length = 0 := by simp [marker_eq, le32]
   unfold readMetaLen
-  simp only [h3, if_false, h1, h2, h2', h2'', if_true, readI32_le32 n hn]
+  simp only [h0, h3, if_false, h1, h2, h2', h2'', if_true, readI32_le32 n hn]
   by_cases h0 : n = 0
   · simp [h0]
   · have : ¬ ((n : Int) = 0) := by omega
